@@ -19,10 +19,9 @@ Hypotheses (each explicit, each with an `example` instance at the end):
 * `p.flt.Strict`: the policy filter keeps the eight tags the argument relies on as errors (true for
   `PolicyFilter::default()`; `new_permissive()` is the documented opt-out) and `p.devDisable = false`
   (the dev flag `disable_beneficial_balance_checks` is off);
-* `p.maxFeerate < u32::MAX`: `estimate_feerate_per_kw` clamps into u32, so a policy maximum of exactly
-  `u32::MAX` accepts every fee (`C08_value_needs_max_lt` exhibits it);
-* `(maxFeerate + 1) · weight ≤ u64::MAX`: always true for real transactions (weight < 2^32 on every
-  platform, maxFeerate < 2^32); it rules out the saturated product in the abstract model.
+No hypothesis on `maxFeerate` or on the weight is needed any more: since fix 3751e9c
+`validate_beneficial_value` compares the exact rate `(nb·1000+999)/weight` in u128 (no u32 clamp, no
+saturation), which is plain `Nat` arithmetic; `C08_max_u32_is_a_bound` shows the former gap closed.
 -/
 namespace VlsModel.Props.C08
 open VlsModel VlsModel.Onchain VlsModel.Velocity
@@ -45,9 +44,9 @@ theorem unknownIdxs_of_mem (outs : List Out) : ∀ i, (∃ o ∈ outs, classify 
   exact unknownIdxs_nil outs i hnil o ho hu
 
 theorem beneficialValue_ok (p : Policy) (sumIn sumOut w nb : Nat)
-    (hdev : p.devDisable = false) (hf : p.flt.feeRange = true) (hmax : p.maxFeerate < U32.MAX)
-    (hw : (p.maxFeerate + 1) * w ≤ U64.MAX) (h : beneficialValue p sumIn sumOut w = .ok nb) :
-    sumOut ≤ sumIn ∧ nb = sumIn - sumOut ∧ nb * 1000 + 999 < (p.maxFeerate + 1) * w := by
+    (hdev : p.devDisable = false) (hf : p.flt.feeRange = true)
+    (h : beneficialValue p sumIn sumOut w = .ok nb) :
+    sumOut ≤ sumIn ∧ nb = sumIn - sumOut ∧ 0 < w ∧ (nb * 1000 + 999) / w ≤ p.maxFeerate := by
   unfold beneficialValue at h
   unfold U64.checkedSub at h
   split at h
@@ -56,7 +55,7 @@ theorem beneficialValue_ok (p : Policy) (sumIn sumOut w nb : Nat)
   split at hsub
   · rename_i hle
     cases hsub
-    unfold estimateFeerate at h
+    unfold impliedFeerate at h
     split at h
     · rename_i hnone
       split at hnone
@@ -72,35 +71,21 @@ theorem beneficialValue_ok (p : Policy) (sumIn sumOut w nb : Nat)
         · cases h
         · rename_i hnot
           cases h
-          refine ⟨hle, rfl, ?_⟩
-          -- the clamped estimate is ≤ maxFeerate < u32::MAX, so the quotient itself is
-          have hq : U64.satAdd (U64.satMul (sumIn - sumOut) 1000) 999 / w ≤ p.maxFeerate := by
-            have : U32.clamp (U64.satAdd (U64.satMul (sumIn - sumOut) 1000) 999 / w) ≤ p.maxFeerate :=
-              Nat.le_of_not_lt hnot
-            unfold U32.clamp at this
-            rw [Nat.min_def] at this
-            split at this <;> omega
-          have hlt : U64.satAdd (U64.satMul (sumIn - sumOut) 1000) 999 < (p.maxFeerate + 1) * w := by
-            have hwpos : 0 < w := Nat.pos_of_ne_zero hw0
-            exact (Nat.div_lt_iff_lt_mul hwpos).mp (by omega)
-          -- hence nothing saturated
-          unfold U64.satAdd U64.satMul at hlt
-          simp only [Nat.min_def] at hlt
-          split at hlt <;> split at hlt <;> omega
+          exact ⟨hle, rfl, Nat.pos_of_ne_zero hw0, Nat.le_of_not_lt hnot⟩
   · cases hsub
 
 /-- **C08 (value)**: if `validate_onchain_tx` accepts with non-beneficial value `nb`, then every output is
     wallet, allowlisted or a validated channel funding output (no unknown output), the credited value does
     not exceed the inputs, `nb` is exactly Σinputs − (Σwallet + Σallowlisted + Σchannel) over `Nat`, and `nb`
-    taken as a fee over the weight lower bound is within the maximum feerate:
-    `(nb·1000 + 999) / weight ≤ maxFeerate`, stated multiplicatively. -/
+    taken as a fee over the (non-zero) weight lower bound is within the maximum feerate, exactly:
+    `(nb·1000 + 999) / weight ≤ maxFeerate` over unbounded naturals — for every `maxFeerate` (incl. u32::MAX)
+    and every weight. -/
 theorem C08_value (p : Policy) (r : Req) (w nb : Nat) (hs : p.flt.Strict) (hdev : p.devDisable = false)
-    (hmax : p.maxFeerate < U32.MAX) (hw : (p.maxFeerate + 1) * w ≤ U64.MAX)
     (h : validateOnchain p r w = .ok nb) :
     (∀ o ∈ r.outs, Accepted o) ∧
     sumBeneficial r.outs ≤ r.inValues.sum ∧
     nb = r.inValues.sum - sumBeneficial r.outs ∧
-    nb * 1000 + 999 < (p.maxFeerate + 1) * w := by
+    0 < w ∧ (nb * 1000 + 999) / w ≤ p.maxFeerate := by
   unfold validateOnchain at h
   split at h
   · cases h
@@ -125,12 +110,18 @@ theorem C08_value (p : Policy) (r : Req) (w nb : Nat) (hs : p.flt.Strict) (hdev 
       · cases h
       · rename_i sumIn hin
         have hsum := sumInputs_some _ _ _ hin
-        obtain ⟨b1, b2, b3⟩ := beneficialValue_ok p sumIn sumOut w nb hdev hs.2.2.2.2.2.2.2 hmax hw h
-        refine ⟨?_, by omega, by omega, b3⟩
+        obtain ⟨b1, b2, b3, b4⟩ := beneficialValue_ok p sumIn sumOut w nb hdev hs.2.2.2.2.2.2.2 h
+        refine ⟨?_, by omega, by omega, b3, b4⟩
         intro o ho
         rcases e3 o ho with ha | hu
         · exact ha
         · exact absurd hu (hno o ho)
+
+/-- the same bound stated multiplicatively -/
+theorem C08_value_mul (p : Policy) (r : Req) (w nb : Nat) (hs : p.flt.Strict) (hdev : p.devDisable = false)
+    (h : validateOnchain p r w = .ok nb) : nb * 1000 + 999 < (p.maxFeerate + 1) * w := by
+  obtain ⟨_, _, _, hw, hq⟩ := C08_value p r w nb hs hdev h
+  exact (Nat.div_lt_iff_lt_mul hw).mp (by omega)
 
 /-- **C08 (unknown destinations)**: the indices reported by `UnknownDestinations` are exactly the outputs
     that are neither wallet, allowlisted nor a funded channel (in order), and the list is never empty. -/
@@ -198,11 +189,10 @@ theorem classify_channel_chan (o : Out) (c : ChanFacts) (h : classify o = .chann
     value and funding script, for an outbound channel without push whose `next_holder_commit_num` is 1, and
     then every input is segwit (and the flags cover all inputs). -/
 theorem C08_channel (p : Policy) (r : Req) (w nb : Nat) (hs : p.flt.Strict) (hdev : p.devDisable = false)
-    (hmax : p.maxFeerate < U32.MAX) (hw : (p.maxFeerate + 1) * w ≤ U64.MAX)
     (h : validateOnchain p r w = .ok nb) (o : Out) (ho : o ∈ r.outs) (c : ChanFacts)
     (hc : classify o = .channel c) :
     ChanOk o c ∧ r.segwit.all id = true ∧ r.nInputs = r.segwit.length := by
-  have hacc := (C08_value p r w nb hs hdev hmax hw h).1 o ho
+  have hacc := (C08_value p r w nb hs hdev h).1 o ho
   unfold Accepted at hacc
   rw [hc] at hacc
   refine ⟨hacc, ?_⟩
@@ -321,28 +311,35 @@ theorem C08_velocity (p : Policy) (hf : p.flt.feeRange = true) (limit bi n : Nat
 
 /-- the generated defaults satisfy the hypotheses of `C08_value` / `C08_velocity` -/
 theorem C08_gen_defaults_ok :
-    Gen.Onchain.mainnetMaxFeerate < U32.MAX ∧ Gen.Onchain.testnetMaxFeerate < U32.MAX ∧
+    Gen.Onchain.mainnetMaxFeerate ≤ U32.MAX ∧ Gen.Onchain.testnetMaxFeerate ≤ U32.MAX ∧
     Gen.Onchain.defaultFeeVelocityLimitMsat < U64.MAX ∧ Gen.Onchain.defaultFeeVelocityIntervalCode ≠ 2 ∧
-    Gen.Onchain.estimateFeerateIsSaturating = true ∧ 0 < Gen.Onchain.witnessWeightConst := by decide
+    Gen.Onchain.beneficialFeerateIsExact = true ∧ 0 < Gen.Onchain.witnessWeightConst := by decide
 
 /-! ### The hypotheses are necessary (refutations of the statement without them) -/
 
 /-- with the permissive filter an output that matches nothing is dropped silently and the tx is accepted -/
 theorem C08_value_needs_filter :
-    ∃ (p : Policy) (r : Req) (w nb : Nat), p.devDisable = false ∧ p.maxFeerate < U32.MAX ∧
+    ∃ (p : Policy) (r : Req) (w nb : Nat), p.devDisable = false ∧
       validateOnchain p r w = .ok nb ∧ ¬ (∀ o ∈ r.outs, Accepted o) := by
   refine ⟨⟨333333, false, ⟨false, false, false, false, false, false, false, false, false, false⟩⟩,
     ⟨2, 100, 400, 1, [true], [1000], [], 1, [⟨1000, 1, some false, false, .no, none⟩]⟩, 400, 1000,
-    rfl, by decide, by decide, ?_⟩
+    rfl, by decide, ?_⟩
   intro h
   have := h _ (List.mem_singleton.mpr rfl)
   simp [Accepted, classify] at this
 
-/-- with `max_feerate_per_kw = u32::MAX` the clamp in `estimate_feerate_per_kw` lets any fee pass -/
-theorem C08_value_needs_max_lt :
-    ∃ (r : Req) (nb : Nat), validateOnchain ⟨U32.MAX, false, Filter.default⟩ r 400 = .ok nb ∧
-      ¬ (nb * 1000 + 999 < (U32.MAX + 1) * 400) := by
-  refine ⟨⟨2, 100, 400, 1, [true], [10000000000000000], [], 0, []⟩, 10000000000000000, by decide, by decide⟩
+/-- since fix 3751e9c `max_feerate_per_kw = u32::MAX` is a real bound: the fee that the clamped estimate let
+    through (10^16 sat over weight 400) is refused (before the fix this was `ok`; the former theorem
+    `C08_value_needs_max_lt` is gone because the hypothesis is no longer needed) -/
+theorem C08_max_u32_is_a_bound :
+    validateOnchain ⟨U32.MAX, false, Filter.default⟩
+      ⟨2, 100, 400, 1, [true], [10000000000000000], [], 0, []⟩ 400 = .err .feeRange := by decide
+
+/-- with the dev flag `disable_beneficial_balance_checks` any fee passes (the other documented opt-out) -/
+theorem C08_value_needs_dev_off :
+    ∃ (r : Req) (nb : Nat), validateOnchain ⟨253, true, Filter.default⟩ r 400 = .ok nb ∧
+      ¬ ((nb * 1000 + 999) / 400 ≤ 253) := by
+  refine ⟨⟨2, 100, 400, 1, [true], [1000000], [], 0, []⟩, 1000000, by decide, by decide⟩
 
 /-! ### Non-vacuity -/
 
